@@ -48,6 +48,24 @@ def main():
         if a.replay:
             return mod.replay(a.what, a.replay)
         return mod.run(a.what, a.tier)
+    except lib.HarnessAborted as e:
+        # the code under test overflowed its stack while the harness replayed generated inputs in-process: the harness dies
+        # with it.  That is an observation about the code, reported against the property being checked, with the inputs
+        # that were in flight (one per worker) as the replay.
+        import json
+        candidates = []
+        cases = next((x for x in e.zargs[1:] if x.endswith(".ndjson") and os.path.exists(x)), None)
+        if cases:
+            lines = open(cases, errors="replace").read().splitlines()
+            candidates = [{"index": i, "case": lines[i][:1500]} for i in e.indices if i < len(lines)]
+        out = lib.Outcome(a.what, a.tier, "model_checking")
+        out.add_findings([{"property": a.what, "kind": "code-under-test-aborts-the-process",
+                           "detail": "stack overflow while `zyconf %s` replayed generated inputs; in flight: items %s of %s" % (e.zargs[0], e.indices, cases or "the generated list"),
+                           "command": e.zargs, "in_flight": candidates, "output": e.text}])
+        out.coverage = {"states": 0, "transitions": 0, "traces_validated_against_impl": 0, "samples": [],
+                        "explanation": "the replay stopped at an input on which the code under test overflows its stack (the process cannot survive that)"}
+        out.assumptions = ["the in-flight items are candidates: one per worker thread; filtered case lists may shift indices"]
+        return out.finish()
     except ToolError as e:
         log("TOOL-ERROR: %s" % e)
         return 2
